@@ -552,6 +552,10 @@ def gen_spec(rng, force_target_action=None):
                 a["num"] = (1, None)
             elif rr < 0.38:
                 a["num"] = (1, 1)
+            elif rr < 0.48:
+                # an occurrence may carry no value at all and there is no default_missing_value:
+                # the occurrence is an EMPTY group, which must stay a group of its own
+                a["num"] = pick(rng, [(0, 1), (0, None), (0, 2)])
             if chance(rng, 0.15):
                 a["delim"] = ","
             if chance(rng, 0.08):
